@@ -14,7 +14,7 @@ func init() {
 	register(&Scenario{Prop: "C05", Horizon: 2 * time.Hour, Steps: 400000, Setup: setupC05})
 }
 
-var c05Disturb = []string{"disconnect-A", "disconnect-B", "cut", "cut", "half-open", "mdns-outage", "unsafe-close"}
+var c05Disturb = []string{"disconnect-A", "disconnect-B", "cut", "cut", "half-open", "mdns-outage", "unsafe-close", "crash-B", "crash-B-silent", "restart-B", "crash-A"}
 
 func setupC05(x *Ctx) {
 	r := newHubRig(x)
@@ -60,8 +60,10 @@ func setupC05(x *Ctx) {
 	}
 	x.SigAdd(fmt.Sprintf("lat=%v", lat), fmt.Sprintf("mdns=%v", mdnsDelay), fmt.Sprintf("regBefore=%v", regBeforeStart), fmt.Sprintf("dist=%v cut=%d/%d", dist, cutConn, cutChunk))
 
+	up := map[string]chan struct{}{"A": make(chan struct{}), "B": make(chan struct{})}
 	startNode := func(n *hubNode, peer *hubNode, delay time.Duration) {
 		x.Go(n.name+":start", func() {
+			defer close(up[n.name])
 			n.create()
 			simrt.Recv("peer-created", peer.ready)
 			if delay > 0 {
@@ -94,6 +96,10 @@ func setupC05(x *Ctx) {
 	x.Go("X:script", func() {
 		simrt.Recv("a", a.ready)
 		simrt.Recv("b", b.ready)
+		// the application has started both hubs and registered the peers (a hub
+		// is not started again after its Shutdown)
+		simrt.Recv("a-up", up["A"])
+		simrt.Recv("b-up", up["B"])
 		for i, d := range dist {
 			simrt.Sleep(time.Duration(1+x.Choose("dist-gap", 40)) * time.Second)
 			x.Ev("disturbance", d, "", i)
@@ -124,6 +130,25 @@ func setupC05(x *Ctx) {
 					cn.SetBlackhole(true)
 					x.Probe("half-open")
 				}
+			case "crash-B", "crash-B-silent", "crash-A":
+				// the peer process dies (killed: sockets reset; power loss: silence)
+				// and a new instance with the same certificate comes up later; the
+				// application registers its peer again
+				n, peer := b, a
+				if d == "crash-A" {
+					n, peer = a, b
+				}
+				n.crash(d != "crash-B-silent")
+				x.Probe(d)
+				simrt.Sleep(time.Duration([]int{0, 1, 5, 30, 130, 200}[x.Choose("downtime", 6)]) * time.Second)
+				n.restart(peer)
+			case "restart-B":
+				// orderly restart: Shutdown, then a new hub in the same process
+				b.on("op", func() { b.hub.Shutdown() })
+				x.Ev("op-shutdown", "B", "", 0)
+				x.Probe(d)
+				simrt.Sleep(time.Duration([]int{0, 1, 5, 30, 130}[x.Choose("downtime", 5)]) * time.Second)
+				b.restart(a)
 			case "mdns-outage":
 				r.eth.Down.Store(true)
 				simrt.Sleep(time.Duration(5+x.Choose("outage", 60)) * time.Second)
@@ -152,6 +177,10 @@ func checkConverged(x *Ctx, r *hubRig, a, b *hubNode) {
 		}
 		ab := (cn.Node() == a.name && cn.PeerNode() == b.name) || (cn.Node() == b.name && cn.PeerNode() == a.name)
 		if !ab {
+			continue
+		}
+		if x.S.Frozen(cn.Group()) || x.S.Frozen(cn.Peer().Group()) {
+			// an endpoint of a crashed process: that socket no longer exists
 			continue
 		}
 		if !cn.Closed() && !cn.Peer().Closed() {
